@@ -62,6 +62,68 @@ def gen_cases(c):
     return cases, ncorpus, nex, nrand
 
 
+def trie_part(c, vdriver):
+    import itertools
+    vm = ensure_vmodel('pmlstep')
+    names = [b'a', b'a.b', b'a.b.c', b'b', b'a.c', b'ab', b'b.a', b'link', b'link.up', b'link.up.fast']
+    attrs = [b'a', b'a.b', b'a.*', b'a.', b'b', b'*', b'a b', b'a.b a', b'link', b'link.up link', b'ab', b'a.b.c', b'c', b'b.a.*', b'a.c b']
+    wordlists = []
+    for k in (1, 2, 3):
+        for comb in itertools.combinations(names, k):
+            for perm in itertools.permutations(comb):
+                wordlists.append(list(perm))
+    rng = c.rng
+    for _ in range(300 if c.tier == 'quick' else 3000):
+        wl = rng.sample(names, rng.randint(2, 6))
+        wordlists.append(wl)
+    if c.tier == 'quick':
+        rng.shuffle(wordlists)
+        wordlists = wordlists[:700]
+    jobs = [(wl, at) for wl in wordlists for at in attrs]
+    il = ['trie-impl %s %s' % (','.join(hexs(w) for w in wl) or '-', hexs(at)) for wl, at in jobs]
+    impl, _ = run_lines_sharded(vdriver, il)
+    bad, oracle = [], {}
+    # the model resolves per name: ask for every inserted name whether it is among the resolved words
+    ml = ['trie 1 %s %s %s' % (','.join(hexs(w) for w in wl) or '-', hexs(at), hexs(wl[0])) for wl, at in jobs]
+    mo, _ = run_lines_sharded(vm, ml)
+    for (wl, at), io, m in zip(jobs, impl, mo):
+        mres = m.split(' ')[0]
+        want_all = (mres == '-')
+        iset = None if io == 'all' else set(x for x in io.strip('[]').split(',') if x)
+        mset = None if want_all else set(x for x in mres.strip('[]').split(',') if x)
+        if (iset is None) != (mset is None) or (iset is not None and iset != mset):
+            bad.append((wl, at, io, m))
+        # the oracle: resolved words = inserted names matched by the attribute (the Recommendation's relation)
+        import subprocess
+    # oracle through the namematch model: name_match_spec attr name for every inserted name
+    vmn = ensure_vmodel('namematch')
+    ol, idx = [], []
+    for j, (wl, at) in enumerate(jobs):
+        for w in wl:
+            ol.append('match 0 0 %s %s' % (hexs(at), hexs(w)))
+            idx.append((j, w))
+    oo, _ = run_lines_sharded(vmn, ol)
+    expect = {}
+    for (j, w), o in zip(idx, oo):
+        m = dict(kv.split('=') for kv in o.split())
+        if m.get('spec') == '1':
+            expect.setdefault(j, set()).add(hexs(w))
+    for j, ((wl, at), io) in enumerate(zip(jobs, impl)):
+        want = expect.get(j, set())
+        got = set(hexs(w) for w in wl) if io == 'all' else set(x for x in io.strip('[]').split(',') if x)
+        if got != want:
+            missing = sorted(want - got)
+            cls = 'trie-misses-inserted-name' if missing else 'trie-resolves-unmatched-name'
+            if cls not in oracle or len(wl) < len(oracle[cls][0]):
+                nm = bytes.fromhex((missing or sorted(got - want))[0])
+                oracle[cls] = (wl, at, nm, io, '-')
+    c.cov['trie_cases'] = len(jobs)
+    c.cov['trie_model_disagreements'] = len(bad)
+    c.cov['trie_oracle_failures'] = {k: 1 for k in oracle}
+    c.cov['evaluations'] = c.cov.get('evaluations', 0) + len(jobs)
+    return bad, oracle
+
+
 def run(c):
     broken = c.prove()
     vdriver = ensure_vdriver('hooks')
@@ -88,7 +150,7 @@ def run(c):
         modelc, _ = run_lines_sharded(vmodel, ['match %d %d %s %s' % (vecc['ci'], vecc['short'], hexs(d), hexs(n)) for d, n in cases])
     else:
         modelc = model
-    c.cov['evaluations'] = 2 * len(cases)
+    c.cov['evaluations'] = c.cov.get('evaluations', 0) + 2 * len(cases)
     nontriv = set()
     disagreements = []
     oracle_fail = []
@@ -119,6 +181,10 @@ def run(c):
     c.cov['disagreements'] = len(disagreements)
     c.cov['oracle_failures'] = len(oracle_fail)
 
+    # 1b. the event trie of the Promela / VHDL back-ends (Trie.cpp) against Trie.v and the matching relation:
+    # word lists in every insertion order (a name before or after its token prefixes), descriptor attributes
+    trie_bad, trie_oracle = trie_part(c, vdriver)
+
     # 2. classify
     def shrink_key(x):
         return (len(x[1]) + len(x[2]), x[1], x[2])
@@ -144,6 +210,15 @@ def run(c):
                      'descs': d.decode('latin-1'), 'name': n.decode('latin-1'),
                      'expected_by_name_match_spec': m['spec'], 'observed': io,
                      'replay_cmd': "echo '%s %s %s' | /verif/.build/vdriver-hooks/vdriver" % ('match' if which == 'nameMatch' else 'matchc', hexs(d), hexs(n))})
+    for cls, (ws, attr, name, io, mo) in sorted(trie_oracle.items()):
+        c.violation({'kind': 'oracle', 'function': 'Trie (static resolution)', 'class': cls, 'words_in_insertion_order': [w.decode('latin-1') for w in ws],
+                     'descs': attr.decode('latin-1'), 'name': name.decode('latin-1'), 'resolved_by_Trie_cpp': io, 'model': mo,
+                     'expected': 'the words resolved for the descriptor are exactly the inserted names the descriptor matches (name_match_spec)',
+                     'replay_cmd': "echo 'trie-impl %s %s' | /verif/.build/vdriver-hooks/vdriver" % (','.join(hexs(w) for w in ws) or '-', hexs(attr))})
+    if trie_bad and not trie_oracle:
+        ws, attr, io, mo = trie_bad[0]
+        c.violation({'kind': 'correspondence', 'function': 'Trie', 'count': len(trie_bad), 'words_in_insertion_order': [w.decode('latin-1') for w in ws],
+                     'descs': attr.decode('latin-1'), 'observed': io, 'model': mo}, no_input=True)
     if not oracle_fail:
         # disagreement or broken obligation without a failing input
         if disagreements:
